@@ -337,6 +337,42 @@ static void app_pointers()
   }
 }
 
+// raw entry points: every address within 32 bytes of either end of the region (and of the other live instance), for each pointee type,
+// through tainted::assign_raw_pointer, tainted_volatile::assign_raw_pointer and UNSAFE_accept_pointer: accepted => inside the own region
+template<class T>
+static void raw_entries()
+{
+  if constexpr (std::is_array_v<T>) return;
+  auto pp = g_sb->template malloc_in_sandbox<T*>();
+  std::vector<uintptr_t> addrs;
+  for (long d = -32; d <= 32; d++) {
+    addrs.push_back(g_base + d);
+    addrs.push_back(g_base + kSize + d);
+    addrs.push_back(g_obase + d);
+    addrs.push_back(g_obase + kSize + d);
+  }
+  for (uintptr_t a : addrs) {
+    for (int entry = 0; entry < 3; entry++) {
+      const void* got = nullptr;
+      bool ret = false;
+      try {
+        if (entry == 0) { tn<T*> t; t.assign_raw_pointer(*g_sb, reinterpret_cast<T*>(a)); got = (const void*)t.UNSAFE_unverified(); }
+        else if (entry == 1) { (*pp).assign_raw_pointer(*g_sb, reinterpret_cast<T*>(a)); tn<T*> t = *pp; got = (const void*)t.UNSAFE_unverified(); }
+        else { auto t = g_sb->template UNSAFE_accept_pointer<T*>(reinterpret_cast<T*>(a)); got = (const void*)t.UNSAFE_unverified(); }
+        ret = true;
+      } catch (const std::runtime_error&) {
+        n_abort++;
+      }
+      n_trans++;
+      static const char* en[] = { "tainted::assign_raw_pointer", "tainted_volatile::assign_raw_pointer", "UNSAFE_accept_pointer" };
+      if (ret && !inv(got))
+        viol(std::string("C03 step=") + en[entry] + " pointee=" + tyname<T>::n + " kind=outside", std::string("rawentry|") + tyname<T>::n + "|" + std::to_string((long long)(a - g_base)),
+             std::string("raw address region start ") + (a >= g_base ? "+" : "-") + std::to_string(a >= g_base ? a - g_base : g_base - a) + " was accepted and gives a tainted pointer to " + where(got));
+    }
+  }
+  g_sb->free_in_sandbox(pp);
+}
+
 // casts from function pointers: the result is a tainted DATA pointer and must satisfy the invariant like any other
 int c03_gfn(long);
 static int32_t guest_c03_gfn(int32_t) { return 0; }
@@ -419,6 +455,7 @@ int main(int argc, char** argv)
     if (f[0] == "pos") positions(strtoull(f[2].c_str(), nullptr, 10));
     else if (f[0] == "malloc") { malloc_answers<char>(); malloc_answers<long>(); malloc_answers<VS>(); }
     else if (f[0] == "apptr") app_pointers();
+    else if (f[0] == "rawentry") for_types(tl<C03_TYPES>{}, [&](auto* tp) { raw_entries<std::remove_pointer_t<decltype(tp)>>(); });
     else if (f[0] == "fncast") function_pointer_casts();
     else if (f[0] == "deref") { std::vector<uint64_t> reps{ strtoull(f[1].c_str(), nullptr, 10) }; deref_state<int>(0x400, reps); }
     else if (f[0] == "step") {
@@ -516,6 +553,7 @@ int main(int argc, char** argv)
     malloc_answers<VS>();
     app_pointers();
     function_pointer_casts();
+    for_types(tl<C03_TYPES>{}, [&](auto* tp) { raw_entries<std::remove_pointer_t<decltype(tp)>>(); });
   }
   stat("states", n_states);
   stat("transitions", n_trans);
